@@ -12,16 +12,16 @@ inductive Reach (tab : Array NodeRec) : Nat → Nat → Prop where
   | refl (i : Nat) : Reach tab i i
   | step {i c k : Nat} : c ∈ kidsOf tab i → Reach tab c k → Reach tab i k
 
-/-- the blocks of the DAG rooted at `root` that `yaep_free_tree` can release: the node
+/-- the blocks of the DAG rooted at `root`, which `yaep_free_tree` has to release: the node
 blocks and alternative cells of the reachable entries, and the name blocks of the reachable
-abstract nodes — except the empty name, which `free_tree_reduce` takes for "already seen"
-(`name[0] == '\0'`) -/
+abstract nodes (the empty name is a name like any other) -/
 def BlockLive (tab : Array NodeRec) (root : Nat) : Block → Prop
   | .node k => Reach tab root k ∧ ∀ as, tab.getD k .bad ≠ .alt as
   | .cell k p => Reach tab root k ∧ ∃ as, tab.getD k .bad = .alt as ∧ p < as.length
-  | .name s => s ≠ "" ∧ ∃ k c ks, Reach tab root k ∧ tab.getD k .bad = .anode s c ks
+  | .name s => ∃ k c ks, Reach tab root k ∧ tab.getD k .bad = .anode s c ks
 
-/-- all blocks of the DAG, including empty names -/
+/-- all blocks of the DAG, the name case spelled out (the same as `BlockLive`, which used
+to exclude the empty name) -/
 def BlockOf (tab : Array NodeRec) (root : Nat) : Block → Prop
   | .name s => ∃ k c ks, Reach tab root k ∧ tab.getD k .bad = .anode s c ks
   | b => BlockLive tab root b
